@@ -88,18 +88,31 @@ def confirm(prog, script, finding):
     if "error" in real:
         return False, {"real": real}
     if kind == "ledger":
-        live = {}
+        # simulate the real create/clone/drop log: imbalance, double drop, or any use of a dropped / never-created id
+        state, problems = {}, []
         for e in real["events"]:
             p = e.split()
             if p[0] == "create":
-                live[p[1]] = 1
+                state[p[1]] = "live"
             elif p[0] == "clone":
-                live[p[2]] = 1
+                if state.get(p[1]) != "live":
+                    problems.append(f"clone of {state.get(p[1], 'never-created')} value {p[1]}")
+                state[p[2]] = "live"
             elif p[0] == "drop":
-                live[p[1]] = live.get(p[1], 0) - 1
-        bad = {k: v for k, v in live.items() if v != 0}
-        # values moved to the host (eat/peek) are dropped by the host: they show up as drops in the log as well
-        return bool(bad), {"unbalanced": bad, "events": real["events"][:60]}
+                if state.get(p[1]) != "live":
+                    problems.append(f"drop of {state.get(p[1], 'never-created')} value {p[1]}")
+                state[p[1]] = "dropped"
+            elif p[0] == "eq":
+                for i in p[1:3]:
+                    if state.get(i) != "live":
+                        problems.append(f"comparison reads {state.get(i, 'never-created')} value {i}")
+            elif p[0] == "call" and p[1] in ("eat", "peek"):
+                if state.get(p[2]) != "live":
+                    problems.append(f"{p[1]} receives {state.get(p[2], 'never-created')} value {p[2]}")
+        leaked = [k for k, v in state.items() if v == "live"]
+        if leaked:
+            problems.append(f"never dropped: {leaked}")
+        return bool(problems), {"problems": problems[:10], "events": real["events"][:60]}
     st, v, trace = concrete_reference(prog, args)
     if st != "ok":
         return False, {"reference": "undefined on these inputs", "real": real}
